@@ -1,0 +1,97 @@
+//go:build verif
+
+package mobile
+
+// Contracts for gvc (contract-based deductive verification, see /verif/DESIGN.md).
+// Comment-only file, compiled only under the build tag "verif".
+//
+// C20, lock discipline of the bound Reader and Verifier: configuration fields are only touched with the object's mutex
+// held by the current call; the callback and transport references are never written after construction; ReadDocument
+// and Verify hold the mutex for the whole call and release it on every path, and work on a reader / verifier of their
+// own (allocated in the call), so that nothing but the process-wide trust store is shared between two bound objects.
+// The trust store is initialised once: its variables are written only inside the function handed to cscaOnce.Do and
+// read only after cscaOnce.Do returned.
+//@ guarded Reader.maxRead, Reader.skipPace, Reader.skipImages, Reader.aaChallenge by mu for C20
+//@ immutable Reader.status, Reader.transceiver for C20
+//@ guarded Verifier.aaChallenge by mu for C20
+//@ onceguarded cscaCertPool, cscaInitErr by cscaOnce for C20
+
+// what its callers rely on; the once-discipline of its variables is decided by the scan above. Trusted.
+//@ func getCscaCertPool
+//@   trusted
+//@   ensures "store-or-error": (result1 == nil) == (result0 != nil)
+//@   assigns nothing
+
+//@ func NewReader
+//@   props C20
+//@   ensures "new-unlocked-reader": result != nil && fresh(result) && !result.mu.held && result.transceiver == transceiver && result.status == status
+//@   ensures "defaults": result.maxRead == 0 && !result.skipPace && !result.skipImages && result.aaChallenge == nil
+//@   assigns nothing
+//@   safety all
+
+//@ func (r *Reader) SetApduMaxLe
+//@   props C20
+//@   requires r != nil && !r.mu.held
+//@   ensures "lock-released": !r.mu.held
+//@   ensures "in-range-or-rejected": (result == nil) == (0 <= maxRead && maxRead <= 65536)
+//@   ensures result == nil ==> r.maxRead == maxRead
+//@   ensures result != nil ==> r.maxRead == old(r.maxRead)
+//@   assigns r.maxRead, r.mu
+//@   safety all
+
+//@ func (r *Reader) SkipPace
+//@   props C20
+//@   requires r != nil && !r.mu.held
+//@   ensures "lock-released": !r.mu.held
+//@   ensures r.skipPace
+//@   assigns r.skipPace, r.mu
+//@   safety all
+
+//@ func (r *Reader) SkipImages
+//@   props C20
+//@   requires r != nil && !r.mu.held
+//@   ensures "lock-released": !r.mu.held
+//@   ensures r.skipImages
+//@   assigns r.skipImages, r.mu
+//@   safety all
+
+//@ func (r *Reader) WithAAChallenge
+//@   props C20
+//@   requires r != nil && !r.mu.held
+//@   ensures "lock-released": !r.mu.held
+//@   ensures "eight-octets-or-rejected": (result1 == nil) == (len(challenge) == 8)
+//@   ensures "stored-as-a-private-copy": result1 == nil ==> result0 == r && r.aaChallenge === challenge && r.aaChallenge != nil && fresh(r.aaChallenge)
+//@   ensures "rejected-challenge-changes-nothing": result1 != nil ==> result0 == nil && r.aaChallenge == old(r.aaChallenge)
+//@   assigns r.aaChallenge, r.mu
+//@   safety all
+
+// the read itself runs on a reader allocated here; a configured size override is in range (SetApduMaxLe)
+//@ func (r *Reader) ReadDocument
+//@   props C20
+//@   requires r != nil && !r.mu.held && r.transceiver != nil && password != nil && password.password != nil
+//@   requires 0 <= r.maxRead && r.maxRead <= 65536 && (r.aaChallenge != nil ==> len(r.aaChallenge) == 8)
+//@   ensures "lock-released": !r.mu.held
+//@   safety all
+
+//@ func NewVerifier
+//@   props C20
+//@   ensures result != nil && fresh(result) && !result.mu.held && result.aaChallenge == nil
+//@   assigns nothing
+//@   safety all
+
+//@ func (v *Verifier) WithAAChallenge
+//@   props C20
+//@   requires v != nil && !v.mu.held
+//@   ensures "lock-released": !v.mu.held
+//@   ensures "eight-octets-or-rejected": (result1 == nil) == (len(challenge) == 8)
+//@   ensures "stored-as-a-private-copy": result1 == nil ==> result0 == v && v.aaChallenge === challenge && v.aaChallenge != nil && fresh(v.aaChallenge)
+//@   ensures "rejected-challenge-changes-nothing": result1 != nil ==> result0 == nil && v.aaChallenge == old(v.aaChallenge)
+//@   assigns v.aaChallenge, v.mu
+//@   safety all
+
+//@ func (v *Verifier) Verify
+//@   props C20
+//@   requires v != nil && !v.mu.held && (v.aaChallenge != nil ==> len(v.aaChallenge) == 8)
+//@   ensures "lock-released": !v.mu.held
+//@   ensures "challenge-untouched": v.aaChallenge == old(v.aaChallenge)
+//@   safety all
